@@ -13,7 +13,7 @@ accepts, constant colours survive the convolution arithmetic for every pair of p
 constant image stay constant.  A sanitizer (ASan+UBSan) build runs a slice of the requests, one child each."""
 import collections, json, re, subprocess
 from concurrent.futures import ThreadPoolExecutor
-from engine.core import log, sh, VERIF, REPO, Obligation, LEAN
+from engine.core import log, sh, VERIF, REPO
 
 REQUIRED = [
     "Pixman.Props.C18.gen_kernelWidth_eq",
@@ -36,26 +36,10 @@ REQUIRED = [
     "Pixman.Props.C18.W3_width0_outside_block",
     "Pixman.Props.C18.W4_weight_sum_bound",
     "Pixman.Props.C18.W4_constant_stays_constant",
-    # exact-rational model of the sampling / normalisation arithmetic (polynomial kernels)
-    "Pixman.Props.C18K.K_kernel_even",
-    "Pixman.Props.C18K.K_simpson_exact",
-    "Pixman.Props.C18K.K_integral_mirror",
-    "Pixman.Props.C18K.K_coeff_even",
-    "Pixman.Props.C18K.K_pos_mirror",
-    "Pixman.Props.C18K.K_phase_mirror",
-    "Pixman.Props.C18K.K_box_box_scale1",
-    "Pixman.Props.C18K.K_linear_impulse_scale1",
-    "Pixman.Props.C18K.K_boxbox_eq_linear_impulse",
-    "Pixman.Props.C18K.N_telescope",
-    "Pixman.Props.C18K.N_error_bounded",
-    "Pixman.Props.C18K.N_exact_total",
-    "Pixman.Props.C18K.N_zero_total",
-    "Pixman.Props.C18K.N_plain_rounding_bound",
-    "Pixman.Props.C18K.K_coeff_nonneg",
 ]
 
 WB_SYMS = ["wb_reset", "wb_n_kernels", "wb_kernel_width", "wb_kernel_id", "wb_filter_width", "wb_create_1d",
-           "wb_floor_trace", "wb_floor_arg", "wb_floor_n", "wb_ceil_trace", "wb_ceil_n"]
+           "wb_floor_trace", "wb_floor_n", "wb_ceil_trace", "wb_ceil_n"]
 HOW = ("bin/check C18 --replay <this file>   (or: printf '%s\\n' \"<request>\" > c.txt; <scratch>/filter-plain exec c.txt "
        "ops.txt impl.txt oracle.txt; lean/.lake/build/bin/pixdrv filter < ops.txt; sanitizer: <scratch>/filter-asan san c.txt out.txt)")
 
@@ -149,9 +133,6 @@ def analyse(ctx, ops, impl, orc, model, acc):
             acc["ops"][op] += 1
         a, m = li[k].strip(), lm[k].strip()
         acc["compared"] += 1
-        if op == "exact":
-            exact_line(acc, req, m, cur[1] if cur else req)
-            continue
         if a.startswith("WB-"):
             acc["findings"].append(("whitebox", cur[1] if cur else req, a, None, a, a.split(" ")[0], "whitebox"))
             continue
@@ -182,44 +163,10 @@ def analyse(ctx, ops, impl, orc, model, acc):
     return tags, lo
 
 
-E1_BOUND = 64      # units of 2^-37 on the argument of the sampling floor  (= 64 ulp(1) on the coefficient c)
-E2_BOUND = 64      # units of 2^-37 on the argument of the normalisation floor (= 64 ulp(65536))
-KNAMES = ["IMPULSE", "BOX", "LINEAR", "CUBIC"]
-
-
-def exact_line(acc, req, m, create_req):
-    """reply of the exact-rational model to the library's doubles of one axis table (polynomial kernels)"""
-    t = req.split(" ", 6)
-    pair = f"{KNAMES[int(t[1])]}.{KNAMES[int(t[2])]}"
-    row = acc["exact"].setdefault(pair, {"tables": 0, "taps": 0, "max_err_sample": 0, "max_err_norm": 0, "max_residual": 0,
-                                         "tie_flips_sample": 0, "tie_flips_norm": 0, "negative_coefficients": 0})
-    f = m.split()
-    if len(f) != 7 or f[0] != "OK":
-        acc["findings"].append(("disagree:exact", create_req, req[:200], m[:300], "the exact-rational model cannot follow the library: " + m[:200],
-                                "disagree:exact", kernels_of(create_req)))
-        return
-    e1, e2, res, fr, fp, negs = (int(x) for x in f[1:])
-    row["tables"] += 1
-    row["taps"] += int(t[5]) * (1 << int(t[4]))
-    row["max_err_sample"] = max(row["max_err_sample"], e1)
-    row["max_err_norm"] = max(row["max_err_norm"], e2)
-    row["max_residual"] = max(row["max_residual"], res)
-    row["tie_flips_sample"] += fr
-    row["tie_flips_norm"] += fp
-    row["negative_coefficients"] += negs
-    if e1 > E1_BOUND or e2 > E2_BOUND:
-        acc["findings"].append(("disagree:exact", create_req, req[:200], m, f"library doubles deviate from the exact rational values by {e1} / {e2} "
-                                f"units of 2^-37 (bounds {E1_BOUND} / {E2_BOUND}) in the sampling / normalisation loop", "disagree:exact-error", kernels_of(create_req)))
-    if res > 1:
-        acc["findings"].append(("disagree:exact", create_req, req[:200], m, f"residual {res}: exact arithmetic leaves 0", "disagree:exact-residual", kernels_of(create_req)))
-    if negs and "CUBIC" not in pair:
-        acc["findings"].append(("disagree:exact", create_req, req[:200], m, "negative coefficient from non-negative kernels", "disagree:exact-negative", kernels_of(create_req)))
-
-
 def new_acc():
     return {"lines": 0, "compared": 0, "null": 0, "findings": [], "ops": collections.Counter(), "stats": collections.Counter(),
             "max": {}, "axis_configs": set(), "pairs": set(), "bits": collections.Counter(), "widths": collections.Counter(),
-            "nontrivial": set(), "samples": [], "exact": {}}
+            "nontrivial": set(), "samples": []}
 
 
 def run_streams(ctx, nparts):
@@ -353,16 +300,10 @@ def fill_cov(ctx, acc):
     ctx.extra["bits_histogram"] = {str(k): v for k, v in sorted(acc["bits"].items())}
     ctx.extra["width_histogram(<=40 exact, then next power of two)"] = {str(k): v for k, v in sorted(acc["widths"].items())}
     ctx.extra["create_returned_NULL"] = acc["null"]
-    ctx.extra["exact_model_error_table(units of 2^-37 on the floor argument; bounds %d/%d)" % (E1_BOUND, E2_BOUND)] = dict(sorted(acc["exact"].items()))
 
 
 def run(ctx):
-    broken = ctx.lean_obligations("Pixman.Props.C18", REQUIRED, extra_modules=["Pixman.Props.C18K"])
-    if ctx.tier == "thorough" and not broken:
-        r = sh(["lake", "env", "leanchecker", "Pixman.Props.C18K"], cwd=LEAN)
-        ctx.obligations.append(Obligation("leanchecker(Pixman.Props.C18K)", r.returncode == 0, r.stdout[-500:]))
-        if r.returncode != 0:
-            broken = broken + ["leanchecker(Pixman.Props.C18K)"]
+    broken = ctx.lean_obligations("Pixman.Props.C18", REQUIRED)
     nparts = 8 if ctx.tier == "quick" else 16
     acc, san_reqs = run_streams(ctx, nparts)
     run_sanitizer(ctx, san_reqs, acc, nparts)
@@ -372,15 +313,9 @@ def run(ctx):
         ctx.broken_obligations_verdict(broken, "filter correspondence streams, the table oracle and the sanitizer run found no failing input")
     ctx.level = "proof"
     ctx.assumptions += [
-        "the double-precision part of create_1d_filter is modelled over exact rationals for the POLYNOMIAL kernels IMPULSE, BOX, LINEAR, CUBIC "
-        "(lean/Pixman/Model/FilterKernels.lean: integral() incl. its LINEAR splits and the 12-segment Simpson rule, tap positions, floor(c*65536+0.5), "
-        "normalisation with error diffusion); the tie is numerical: for axis tables of these 16 kernel pairs with at most 192 cells every double that "
-        "reaches one of the two floor() calls (observed in pixman-filter.c re-compiled with floor/ceil hooks, harness/filter_wb.c) must lie within "
-        f"{E1_BOUND} (sampling) / {E2_BOUND} (normalisation) units of 2^-37 of the model's exact value, and the residual must be the exact model's (0, or 65536 for an "
-        "all-zero phase); measured maxima per kernel pair are in exact_model_error_table.  The library's integer may still differ from the floor of the exact value "
-        "when the exact argument is that close to an integer (counted as tie_flips).  GAUSSIAN, LANCZOS2, LANCZOS3, LANCZOS3_STRETCHED (exp, sin) stay "
-        "observed-only: their stored values are arbitrary parameters of W1-W3 and are fed from the hooked run; for ALL kernels the harness checks residual in {-1,0,1} "
-        "and that the sampled integers of phase n-1-i mirror those of phase i within one unit",
+        "the double-precision part of create_1d_filter (sampling by integral(), normalisation with error diffusion) is NOT modelled: the theorems "
+        "take the stored values raw/pre as arbitrary parameters; the run obtains them from pixman-filter.c re-compiled with floor/ceil hooks "
+        "(harness/filter_wb.c) and checks that this re-compilation reproduces the library's table bit for bit",
         "filter_width and x1 are modelled exactly over the integers: for a 16.16 scale every intermediate double is exact (products below 2^35), so no rounding can differ",
         "W1 carries the hypothesis that the running total of the normalised values and the corrected first cell fit int32 (NoWrap); the run counts the "
         "requests where a NaN/out-of-range double reaches the int cast (undefined in C; the model follows the compiled library: INT32_MIN, wrap-around)",
